@@ -128,14 +128,18 @@ CLAIMS = {
          "C08/C09/C13/C14. Tied to the code by generating typed terms as trees: the source text runs on the real parser and interpreter, the tree on the "
          "model, which re-compiles the source with its own parser model, requires the AST to be the lowering of the tree, type-checks it, and answers with "
          "both the operational and the reference outcome; implementation, model and specification must coincide (debug and release in the thorough tier)."),
- "C05": ("PARTIAL. The model's evaluator is a function of (context, program) returning no context, so purity is checked on the implementation rather than "
-         "proved of the model: histories (one context, up to 50 executions) and thread runs (2-16 threads sharing one program set and one root context by "
-         "reference, each in its own inner scope) are answered execution by execution by the history-free model, and the harness additionally checks that every "
-         "context variable, the program and every earlier result are unchanged after each execution, that repetition and an equal fresh context give equal "
-         "results, and that no context-held buffer gained or lost an owner; Program/Context/Value are asserted Send+Sync at compile time. Theorems (induction on "
-         "the expression): the outcome and host-call log depend on the context only through its function registry and the lookups of the identifiers occurring in "
-         "the program (frame), hence equal contexts give equal results, an inner scope and a private unreferenced variable change nothing. Not modelled: thread "
-         "scheduling, the memory model, Arc's in-place-append optimisation (observed only through the harness laws)."),
+ "C05": ("PARTIAL. (a) The evaluator model is a function of (context, program) returning no context, so purity is checked on the implementation: "
+         "histories (one context, up to 50 executions) and thread runs (2-16 threads sharing one program set and one root context by reference, each in its own "
+         "inner scope) are answered execution by execution by the history-free model, and the harness checks that every context variable, the program and "
+         "every earlier result are unchanged after each execution, that repetition and an equal fresh context give equal results, and that no context-held "
+         "buffer gained or lost an owner; Program/Context/Value are asserted Send+Sync at compile time. Theorems: outcome and host-call log depend on the "
+         "context only through its function registry and the lookups of the identifiers occurring in the program (frame); equal contexts, an inner scope and "
+         "a private unreferenced variable change nothing. (b) Heap model of the Arc discipline behind list/string + (owner counts, clone on lookup, "
+         "Arc::make_mut in-place append, Arc::get_mut move): theorems by induction on the program - an execution changes no buffer that existed before, "
+         "raises its owner count by exactly the handle the result holds, returns a shared context buffer or a fresh singly-owned one, and reads the value the "
+         "sharing-free semantics gives; after ANY history every context buffer has its original payload and owner count and every execution returned what it "
+         "returns alone. The heap model is tied to objects.rs by comparing, per program, value, identity of the result buffer (Arc::ptr_eq) and every "
+         "context buffer's Arc::strong_count. Not modelled: thread scheduling, the memory model, nested buffers and macros in the heap model."),
  "C06": ("Theorems that Eval.eval (a structural Fixpoint transcribing Value::resolve) returns the left operand's outcome "
          "and host-call log alone when && / || are decided by it, evaluates exactly one branch of ?:, and propagates a "
          "left error - for every context and operand expression, hence at every depth and inside macro bodies. Tied to the "
